@@ -146,6 +146,7 @@ type tclient struct {
 	yields  int
 	ops     []Op
 	trees   []*mast.Mast
+	other   *mast.Mast // the other common persisted version, loaded at setup and only ever read (a diff partner)
 	trace   []string
 	kd      *KeyDialect
 	vd      *ValDialect
@@ -445,8 +446,26 @@ func (c *tclient) exec(i int, op *Op) {
 			}
 		}
 		c.note(i, fmt.Sprintf("cur err=%v %s", err, sb.String()))
+	case "dlinks":
+		o := c.trees[op.B%len(c.trees)]
+		if op.Val%2 == 1 && c.other != nil {
+			o = c.other
+		}
+		var sb strings.Builder
+		err := t.DiffLinks(ctx, o, func(removed bool, link interface{}) (bool, error) {
+			if s, ok := link.(string); ok {
+				fmt.Fprintf(&sb, "%v:%s,", removed, s)
+			} else {
+				fmt.Fprintf(&sb, "%v:(unsaved node),", removed)
+			}
+			return true, nil
+		})
+		c.note(i, fmt.Sprintf("dlinks err=%v %s", err, sb.String()))
 	case "diff":
 		o := c.trees[op.B%len(c.trees)]
+		if op.Val%2 == 1 && c.other != nil {
+			o = c.other
+		}
 		var sb strings.Builder
 		err := t.DiffIter(ctx, o, func(a, r bool, k, av, rv interface{}) (bool, error) {
 			ki, _ := c.kd.Index(k)
@@ -504,8 +523,12 @@ func GenThreadScenario(seed uint64, tier string) *Scenario {
 		sc.Extra["cancelled"] = 1 + g.Intn(sc.Extra["clients"])
 	}
 	n := g.Range(6, 40)
-	ws := []int{30, 14, 6, 4, 3, 8, 3, 2, 4, 2}
-	kinds := []string{"ins", "del", "get", "iter", "seek", "persist", "clone", "diff", "cur", "memstore"}
+	if sc.Extra["from_clone"] == 3 {
+		// the common parent has this many unsaved inserts when it is cloned for the clients
+		sc.Extra["parent_dirty"] = g.Intn(4)
+	}
+	ws := []int{30, 14, 6, 4, 3, 8, 3, 3, 4, 2, 3}
+	kinds := []string{"ins", "del", "get", "iter", "seek", "persist", "clone", "diff", "cur", "memstore", "dlinks"}
 	hot := []int{g.Intn(c.U), g.Intn(c.U), g.Intn(c.U)}
 	for i := 0; i < n; i++ {
 		op := Op{K: kinds[g.Pick(ws)], T: g.Intn(sc.Extra["clients"]), Key: g.Intn(c.U), Val: g.Intn(50), A: g.Intn(3), B: g.Intn(3)}
@@ -673,6 +696,12 @@ func runThreads(sc *Scenario, ch *Chooser, solo int, logh *hasher) (*threadRun, 
 					return nil, err
 				}
 				commonParent = p
+				pg := NewGen(uint64(sc.Extra["setup_seed"]) + 1)
+				for j := 0; j < sc.Extra["parent_dirty"]; j++ {
+					if err := p.Insert(ctx, tb.kd.Key(pg.Intn(cfg.U)), tb.vd.Val(pg.Intn(50))); err != nil {
+						return nil, err
+					}
+				}
 			}
 			cl, err := commonParent.Clone(ctx)
 			if err != nil {
@@ -685,6 +714,11 @@ func runThreads(sc *Scenario, ch *Chooser, solo int, logh *hasher) (*threadRun, 
 		fromClone := sc.Extra["from_clone"] == 1 || (sc.Extra["from_clone"] == 2 && i%2 == 1)
 		m, err := tb.roots[i%len(tb.roots)].LoadMast(ctx, cfg.RemoteConfig(tb.kd, tb.vd, c.disk, c.cache, nil))
 		if err != nil {
+			return nil, err
+		}
+		if o, err := tb.roots[(i+1)%len(tb.roots)].LoadMast(ctx, cfg.RemoteConfig(tb.kd, tb.vd, c.disk, c.cache, nil)); err == nil {
+			c.other = o
+		} else {
 			return nil, err
 		}
 		if fromClone {
@@ -1116,7 +1150,7 @@ func init() {
 	extraEngines["threads"] = RunThreadShard
 	extraReplayers["threads"] = RunThreadScenario
 	propTable["C11"] = PropInfo{Engine: "threads", Level: "exploration", QuickS: 24, ThorS: 600,
-		Rule: "one evaluation = one seeded scenario: 2-4 client goroutines, each owning trees loaded from (or cloned from a tree loaded from) two common persisted versions, run 6-40 ops (insert/delete/get/iter/seek/persist/clone/diff) under the baton scheduler, which picks the running client at every Persist/NodeCache call and op boundary; oracles: race-detector reports with mast frames (binary built -race; hand-off by raw pipe syscalls is invisible to the detector), fingerprints of every pre-loaded shared node before/after, and equality of each client's API-visible trace with the trace of the same ops run alone; both bindings (lock-free frozen cache/store with private overlays; live ARC cache + locked store); non-trivial = the concurrent run completed and was judged; distinct = hash of (config, ops, schedule tape)",
+		Rule: "one evaluation = one seeded scenario: 2-4 client goroutines, each owning trees loaded from (or cloned from a tree loaded from) two common persisted versions, run 6-40 ops (insert/delete/get/iter/seek/persist/clone/DiffIter/DiffLinks/cursor walks; diffs also against the other common version; the common parent of cloned trees may carry unsaved inserts; one client may run under a cancelled context) under the baton scheduler, which picks the running client at every Persist/NodeCache call and op boundary; oracles: race-detector reports with mast frames (binary built -race; hand-off by raw pipe syscalls is invisible to the detector), fingerprints of every pre-loaded shared node before/after, and equality of each client's API-visible trace with the trace of the same ops run alone; both bindings (lock-free frozen cache/store with private overlays; live ARC cache + locked store); non-trivial = the concurrent run completed and was judged; distinct = hash of (config, ops, schedule tape)",
 		Assumptions: []string{"Go race detector (happens-before analysis of the executed accesses; its report for a given serialized execution is repeatable — checked by the determinism self-test)", "raw SYS_READ/SYS_WRITE pipe hand-off is not treated as synchronisation by the detector (spiked, see DESIGN.md 2.5)", "flush's own worker goroutines are not scheduled by this engine (C03's subject)"},
 		Components: map[string][]string{
 			"real": {"mast core", "flush worker pool (inline inside a client step)", "hashicorp ARC cache (live binding)"},
